@@ -205,7 +205,10 @@ def _run_invariant_annotations(self, ch, keep_log=False):
     rt = A.build_runtime(fns)
     cj = A.contract_json("T", "test/T.sol", rt, abis, devdoc_methods={"invariant_v2()": {"custom:halmos": f"--loop {other_loop}"}})
     bom = A.build_out_map([("T.sol", "T", cj)] + sc.extra_artifacts())
-    args = R.make_args(solver_threads=ch.choose([1, 2], "ia.threads"), panic_error_codes={1}, **sc.options)
+    # --loop comes from the config file here, so that the function-level annotation outranks it
+    opts = dict(sc.options)
+    args = R.make_args(_config_file={"loop": opts.pop("loop")}, solver_threads=ch.choose([1, 2], "ia.threads"),
+                       panic_error_codes={1}, **opts)
     sigs = [sc.sig, "invariant_v2()"]
 
     def run(order):
